@@ -5,6 +5,7 @@ package c19
 
 import (
 	"context"
+	"errors"
 	"crypto/sha256"
 	"fmt"
 	"strings"
@@ -17,6 +18,7 @@ import (
 	abci "github.com/tendermint/tendermint/abci/types"
 	"github.com/tendermint/tendermint/libs/pubsub"
 	"github.com/tendermint/tendermint/libs/pubsub/query"
+	"github.com/tendermint/tendermint/state/indexer"
 	blockkv "github.com/tendermint/tendermint/state/indexer/block/kv"
 	"github.com/tendermint/tendermint/state/txindex"
 	txkv "github.com/tendermint/tendermint/state/txindex/kv"
@@ -104,6 +106,33 @@ func genEBQuery(t *rapid.T, pool []map[string][]string) gquery {
 	return q
 }
 
+// faultyBlockIndexer / faultyTxIndexer stand for storage that fails to write at some heights.
+type faultyBlockIndexer struct {
+	indexer.BlockIndexer
+	failAt map[int64]bool
+}
+
+func (f *faultyBlockIndexer) Index(bh types.EventDataNewBlockHeader) error {
+	if f.failAt[bh.Header.Height] {
+		return errors.New("verif: injected block index write error")
+	}
+	return f.BlockIndexer.Index(bh)
+}
+
+type faultyTxIndexer struct {
+	txindex.TxIndexer
+	failAt map[int64]bool
+}
+
+func (f *faultyTxIndexer) AddBatch(b *txindex.Batch) error {
+	for _, op := range b.Ops {
+		if op != nil && f.failAt[op.Height] {
+			return errors.New("verif: injected tx index write error")
+		}
+	}
+	return f.TxIndexer.AddBatch(b)
+}
+
 func TestEventBusIndexer(t *testing.T) {
 	rapid.Check(t, func(t *rapid.T) {
 		cmdCap := rapid.SampledFrom([]int{0, 0, 0, 2}).Draw(t, "cmdCap")
@@ -114,7 +143,10 @@ func TestEventBusIndexer(t *testing.T) {
 		store := dbm.NewMemDB()
 		txIdx := txkv.NewTxIndex(store)
 		blkIdx := blockkv.New(dbm.NewPrefixDB(store, []byte("block_events")))
-		svc := txindex.NewIndexerService(txIdx, blkIdx, bus, false)
+		// storage trouble: at drawn heights the block indexer resp. the tx indexer reports a write error (default
+		// node configuration: the service logs it and carries on)
+		blkFail, txFail := map[int64]bool{}, map[int64]bool{}
+		svc := txindex.NewIndexerService(&faultyTxIndexer{TxIndexer: txIdx, failAt: txFail}, &faultyBlockIndexer{BlockIndexer: blkIdx, failAt: blkFail}, bus, false)
 		e := newEngine(t, "TestEventBusIndexer", eventBusAPI(bus), cmdCap)
 		e.stuckBy = "; all generated unbuffered subscribers are being read, so it is the indexer service that stopped taking messages: it waits for a tx publication that never reached it"
 		defer func() {
@@ -130,11 +162,28 @@ func TestEventBusIndexer(t *testing.T) {
 		type blk struct {
 			begin, end []gevent
 			txs        []txItem
+			reserved   bool // carries an application event with the reserved key block.height
 		}
 		blocks := make([]blk, H+1)
 		var pool []map[string][]string
 		for h := int64(1); h <= H; h++ {
 			b := blk{begin: genSEvents(t, false), end: genSEvents(t, false)}
+			switch rapid.SampledFrom([]string{"", "", "", "", "", "reserved-key", "block-write-error", "tx-write-error"}).Draw(t, "trouble") {
+			case "reserved-key":
+				// an application event under the key the block indexer reserves for itself: the kv block indexer
+				// refuses the whole block ("block.height is reserved")
+				ev := gevent{Type: "block", Attrs: []gattr{{Key: "height", Val: genSValue(t, "n", false), Index: rapid.Bool().Draw(t, "ridx")}}}
+				if rapid.Bool().Draw(t, "inbegin") {
+					b.begin = append(b.begin, ev)
+				} else {
+					b.end = append(b.end, ev)
+				}
+				b.reserved = true
+			case "block-write-error":
+				blkFail[h] = true
+			case "tx-write-error":
+				txFail[h] = true
+			}
 			n := rapid.SampledFrom([]int{0, 1, 2, 3}).Draw(t, "ntx")
 			for i := 0; i < n; i++ {
 				it := txItem{Height: h, Index: uint32(i), Tx: []byte(fmt.Sprintf("tx-%d-%d-%d", h, i, rapid.IntRange(0, 99).Draw(t, "salt"))), Events: genSEvents(t, false)}
@@ -223,24 +272,37 @@ func TestEventBusIndexer(t *testing.T) {
 		publishHeader(H+1, 0, nil, nil)
 		e.finish()
 
+		// Whatever happened to the indexing of a block's OWN events (refused for a reserved key, write error), the
+		// transactions committed in that block must be indexed; and a failed tx batch must not cost the block its
+		// entry. Only the side that was refused / failed is not asserted for that height.
+		troubled := 0
 		for h := int64(1); h <= H; h++ {
-			has, err := blkIdx.Has(h)
-			if err != nil || !has {
+			blockOK := !blocks[h].reserved && !blkFail[h]
+			if !blockOK || txFail[h] {
+				troubled++
+			}
+			if has, err := blkIdx.Has(h); blockOK && (err != nil || !has) {
 				t.Fatalf("block %d was published on the event bus but is not indexed (Has=%v, %v)\n%s", h, has, err, strings.Join(e.hist, "\n"))
+			}
+			if txFail[h] {
+				continue
 			}
 			got, err := txIdx.Search(context.Background(), query.MustParse(fmt.Sprintf("tx.height = %d", h)))
 			if err != nil {
 				t.Fatalf("Search tx.height=%d: %v", h, err)
 			}
 			if len(got) != len(blocks[h].txs) {
-				t.Fatalf("height %d: %d txs published, %d indexed\n%s", h, len(blocks[h].txs), len(got), strings.Join(e.hist, "\n"))
+				t.Fatalf("height %d (block events refused for reserved key: %v, block index write error: %v): %d txs published, %d indexed\n%s", h, blocks[h].reserved, blkFail[h], len(blocks[h].txs), len(got), strings.Join(e.hist, "\n"))
 			}
 			for _, it := range blocks[h].txs {
 				hash := sha256.Sum256(it.Tx)
 				r, err := txIdx.Get(hash[:])
 				if err != nil || r == nil || !proto.Equal(r, results[it.hashHex()]) {
-					t.Fatalf("tx %d/%d: indexed %v (%v), published %v", it.Height, it.Index, r, err, results[it.hashHex()])
+					t.Fatalf("tx %d/%d (block events refused for reserved key: %v, block index write error: %v): indexed %v (%v), published %v", it.Height, it.Index, blocks[h].reserved, blkFail[h], r, err, results[it.hashHex()])
 				}
+			}
+			if !blockOK {
+				continue
 			}
 			// block events searchable
 			battrs := searchable(blocks[h].begin, blocks[h].end)
@@ -276,6 +338,24 @@ func TestEventBusIndexer(t *testing.T) {
 		}
 		if before > 0 {
 			cls = append(cls, "subscriber-before-indexer")
+		}
+		for h := int64(1); h <= H; h++ {
+			withTx := ":empty-block"
+			if len(blocks[h].txs) > 0 {
+				withTx = ":block-with-txs"
+			}
+			if blocks[h].reserved {
+				cls = append(cls, "block-events-refused-reserved-key"+withTx)
+			}
+			if blkFail[h] {
+				cls = append(cls, "block-index-write-error"+withTx)
+			}
+			if txFail[h] {
+				cls = append(cls, "tx-index-write-error"+withTx)
+			}
+		}
+		if troubled == 0 {
+			cls = append(cls, "no-indexing-trouble")
 		}
 		nontrivial := e.mixed > 0 && nTx > 0
 		lib.Case("TestEventBusIndexer", lib.FP(strings.Join(e.hist, "\n")), nontrivial, cls...)
